@@ -292,7 +292,7 @@ def enum_extremes(tier, shard, nshards):
         "remark-run": lambda n: "remark " + "x " * n,
         "dots": lambda n: "1." * n,
         "slash": lambda n: "10.0.0.0/" + "3" * n,
-        "lines": lambda n: "\n".join(["permit ip any any"] * min(n, 3000)),
+        "lines": lambda n: "\n".join(["permit ip any any"] * min(n, 2000)),
         "deep-indent": lambda n: "\n".join(" " * i + f"level {i}" for i in range(min(n, deep))),
         "deep-indent-acl": lambda n: "ip access-list extended A\n" + "\n".join(" " * (i + 1) + "permit ip any any" for i in range(min(n, deep))),
         "config-key": lambda n: "_config_\n permit ip any any\nip access-list extended A\n permit ip any any",
